@@ -34,7 +34,9 @@ Naming(off) == LET sc == NM!Scheme(AbstractNames, off) IN [n \in {AbstractNames[
                      sc[CHOOSE i \in 1..Len(AbstractNames) : AbstractNames[i] = n]]
 RNOffsets == IF Tier = "quick" THEN {0, 7, 13, 25} ELSE {0, 3, 7, 13, 17, 21, 25, 31}
 RNPrograms(z) == FNPrograms(z) \cup { p \in CFPrograms(z) : Tier # "quick" } \cup MUPrograms(z) \cup PRPrograms(z)
+ClashNaming(k) == [n \in {"x", "y", "fun"} |-> NM!Variants(CASE n = "x" -> NM!ClashPairs[k][1] [] n = "y" -> NM!ClashPairs[k][2] [] OTHER -> <<"simple", "foo">>)]
 RNCases(z) == { [Plain(p) EXCEPT !.naming = Naming(off)] : p \in RNPrograms(z), off \in RNOffsets }
+              \cup { [Plain(p) EXCEPT !.naming = ClashNaming(k)] : p \in NCPrograms, k \in 1..Len(NM!ClashPairs) }
 
 Cases(z) == CASE Family = "CF" -> { Plain(p) : p \in CFPrograms(z) }
               [] Family = "FN" -> { Plain(p) : p \in FNPrograms(z) \cup PRPrograms(z) }
